@@ -225,12 +225,14 @@ def run_case(case, R):
             keys = numpy.array(flat).reshape(d, n)
             if base > 3 and code % 2:
                 keys = keys.astype(numpy.uint32)     # the library passes uint32 exponent tables
-            for graded, reverse in FLAGS:
+            # a single key row may be handed over as a 1-d array or a plain list, a matrix also as nested lists
+            forms = [keys] + ([keys[0], keys[0].tolist(), tuple(keys[0].tolist())] if d == 1 else [keys.tolist()] if code % 3 == 2 else [])
+            for given, (graded, reverse) in itertools.product(forms, FLAGS):
                 R.tr()
                 try:
-                    idx = numpoly.glexsort(keys, graded=graded, reverse=reverse)
+                    idx = numpoly.glexsort(given, graded=graded, reverse=reverse)
                 except Exception as err:  # noqa: BLE001
-                    R.fail("glexsort", "exception", f"keys {keys.tolist()} graded={graded} reverse={reverse}: {type(err).__name__}: {err}",
+                    R.fail("glexsort", "exception", f"keys {given!r} graded={graded} reverse={reverse}: {type(err).__name__}: {err}",
                            tags=[f"graded={graded}", f"reverse={reverse}"], sub={"k": "sortone", "keys": keys.tolist(), "g": graded, "r": reverse})
                     continue
                 bad = check_sort(keys, idx, graded, reverse)
